@@ -421,6 +421,9 @@ def program_source(ops, watch=None, tail=""):
 
 
 # ------------------------------------------------------------------ the checked runner
+_CUR_STEP = [0]
+
+
 class Failure(Exception):
     def __init__(self, kind, step, detail):
         super().__init__(kind)
@@ -449,11 +452,19 @@ def probes_for(name, s):
 
 
 def snapshot_cheap(s):
+    """(repr, structural dump incl. key order).  The dump is taken BEFORE repr() is called, so that a
+    repr() which itself changes the schema shows up as a difference at the next snapshot."""
+    d = dump(s)
     try:
         rp = repr(s)
     except Exception as e:  # noqa
         rp = "!" + type(e).__name__
-    return (rp, dump(s))
+    d2 = dump(s)
+    if d2 != d:
+        raise Failure("schema-changed", _CUR_STEP[0],
+                      {"what": "repr() of a schema changed the schema itself (key order included)",
+                       "before": repr(d)[:400], "after": repr(d2)[:400], "repr": rp[:200]})
+    return (rp, d)
 
 
 def snapshot_full(s, probes):
@@ -500,6 +511,10 @@ class Runner:
         pr = probes_for(name, s)
         self.meta[name] = {"probes": pr, "pdump": dump(pr), "cheap": snapshot_cheap(s),
                            "full": snapshot_full(s, pr), "step": self.step_no}
+        if dump(s) != self.meta[name]["cheap"][1]:
+            raise Failure("schema-changed", self.step_no,
+                          {"schema": name, "what": "repr() / validate / fake of a schema changed the schema itself (key order included)",
+                           "before": repr(self.meta[name]["cheap"][1])[:400], "after": repr(dump(s))[:400], "entered_at": self.step_no})
 
     def check_pool(self, touched=()):
         if not self.checks:
@@ -533,6 +548,7 @@ class Runner:
     # --- one record
     def step(self, op):
         self.step_no += 1
+        _CUR_STEP[0] = self.step_no
         used = uses_of(op)
         is_mut = op["op"] == "mutate"
         before = None
@@ -1036,6 +1052,12 @@ class HistoryGen:
 
     def mk_leaf(self):
         src = gen.gen_schema_src(r := self.r, r.choice([0, 1, 1, self.depth]))
+        if r.random() < 0.12:
+            # patterns with inline flags / dots / negated classes / failing constructs: what one generation
+            # does (or fails at) must not change what the shared generator does for the next schema
+            src = r.choice(["schema.str.regex('(?s)a.b')", "schema.str.regex('(?i)ab+')", "schema.str.regex('^<.{6}>$')",
+                            "schema.str.regex('[^x]{3}')", "schema.str.regex('(?s).{4}')", "schema.str.regex('a(\\\\s)+')",
+                            "schema.list(schema.str.regex('(?s)x.')).len(2)", "schema.str.regex('\\\\w{3}-\\\\d{2}')"])
         return {"op": "leaf", "src": src, "out": self.fresh("s")}
 
     def _schema_items(self, lo, hi):
@@ -1486,6 +1508,48 @@ def probe_dict_subclasses(ctx):
     return n
 
 
+def probe_generation_independence(ctx):
+    """fake(s) under a fixed tape is a function of s and the tape: generating from OTHER schemas in
+    between - patterns with inline flags, with constructs the generator refuses, custom alphabets of other
+    generator objects - changes nothing (the module-level generator keeps no state between calls)."""
+    r = ctx.rng
+    watched = ["schema.str.regex('^<.{12}>$')", "schema.str.regex('[^x]{8}')", "schema.str.regex('a.b.c')", "schema.str.regex('\\w{6}\\d{3}')",
+               "schema.list(schema.str.regex('.+')).len(3)", "schema.str.len(8)", "schema.dict({'a': schema.str.regex('[^0-9]{5}'), 'b': schema.int})",
+               "schema.list(schema.int)", "schema.str.alphabet('ab').len(5)"]
+    disturb = ["schema.str.regex('(?s)a.b')", "schema.str.regex('(?s).{4}')", "schema.str.regex('(?i)[^a]b')", "schema.str.regex('(?m)^a$')",
+               "schema.str.regex('(?x) a b ')", "schema.str.regex('a(\\s)+')", "schema.list(schema.str.regex('(?s)x.')).len(2)",
+               "schema.str.regex('(?a)\\w+')", "schema.list(schema.str.regex('\\S')).len(2)", "schema.str.regex('(?s)(?i).')"]
+    big_tape = [(i * 2654435761 + 12345) % (2 ** 32) for i in range(600)]   # large, varied entries: every index of every alphabet
+
+    def run_all():
+        out = []
+        for src in watched:
+            s = gen.build(src)
+            try:
+                with tapemod.scripted(tapemod.Tape(big_tape)):
+                    out.append(dump_generated(fake(s)))
+            except Exception as e:  # noqa
+                out.append("!" + type(e).__name__)
+        return out
+    base = run_all()
+    n = 0
+    for _ in range(ctx.scale(3, 10)):
+        for dsrc in r.sample(disturb, len(disturb)):
+            try:
+                fake(gen.build(dsrc))
+            except Exception:  # noqa
+                pass
+            n += 1
+            now = run_all()
+            if now != base:
+                i = next(j for j in range(len(base)) if now[j] != base[j])
+                ctx.violation("what fake() returns for a schema under a fixed tape depends on what was generated before: " + watched[i],
+                              {"kind": "history", "schema": watched[i], "generated_in_between": dsrc,
+                               "observed": repr(now[i])[:300], "expected": repr(base[i])[:300]})
+                return n
+    return n
+
+
 def probe_rendering(ctx):
     """validate(schema, value, path=p) with a caller-owned path object, then the result rendered
     twice: rendering is an operation too - it returns the same text both times and leaves the
@@ -1607,6 +1671,9 @@ def run(ctx):
     n_slices = ctx.scale(8, 20)
     shrink_budget = ctx.scale(25, 120)
     model_hist = ctx.scale(60, 200)          # histories handed to the Coq model
+    # first of all (the process has generated nothing yet): state left behind by one generation would make the
+    # baseline itself "after", so this probe runs before the histories
+    indep = probe_generation_independence(ctx)
     pristine = Pristine()
     try:
         _run(ctx, pristine, n_hist, n_ops, depth, n_slices, shrink_budget, model_hist)
@@ -1616,6 +1683,7 @@ def run(ctx):
     ctx.coverage.setdefault("distribution", {})["dict_subclass_probes"] = probes
     ctx.coverage["distribution"]["fresh_interpreter_ops"] = probe_fresh_interpreter(ctx)
     ctx.coverage["distribution"]["rendering_probes"] = probe_rendering(ctx)
+    ctx.coverage["distribution"]["generation_independence_probes"] = indep
 
 
 def _run(ctx, pristine, n_hist, n_ops, depth, n_slices, shrink_budget, model_hist):
